@@ -1,8 +1,8 @@
 SPECIFICATION Spec
-CONSTANTS NF = 4
-          Count = 2
-          MaxLost = 1
-          FilterTmp = FALSE
+CONSTANTS CNF = 4
+          CCount = 2
+          CMaxLost = 1
+          CFilterTmp = FALSE
 INVARIANT TypeOK
 INVARIANT ReaderNeverSeesPartial
 INVARIANT BoundedRetention
